@@ -80,6 +80,21 @@ func (n *Property) Inject(metas []*Meta) error {
 		return nil
 	}
 
+	//a version that does not fit the field (a post-processor substituted an object of another type) counts as not found
+	fieldType := n.Type
+	if k := fieldType.Kind(); k == reflect.Slice || k == reflect.Array {
+		fieldType = fieldType.Elem()
+	}
+	fit := filter(metas, func(m *Meta) bool {
+		return m.Value.Type().AssignableTo(fieldType)
+	})
+	if len(fit) != len(metas) && isRequired {
+		return errors.Errorf("inject '%s': a candidate of another type than the field's has been substituted, it is not assignable", n)
+	}
+	if metas = fit; len(metas) == 0 {
+		return nil
+	}
+
 	switch n.Type.Kind() {
 	case reflect.Slice, reflect.Array:
 		n.Value.Set(reflect.MakeSlice(n.Type, len(metas), len(metas)))
